@@ -305,5 +305,61 @@ def finalRanges (adds : List (Nat × Label)) : List (Nat × Label) :=
   let keys := ((adds.map (·.1)).eraseDups).mergeSort (fun a b => a ≤ b)
   keys.filterMap fun k => (adds.filter (fun a => a.1 = k)).getLast?
 
+
+/-! ### `/P` is a text string (ISO 32000-1 §7.9.2.2, Table 159) -/
+
+/-- code points of a UTF-8 byte string (the authored Rust `String`); fuel = number of bytes -/
+def utf8DecodeF : Nat → List Nat → List Nat
+  | 0, _ => []
+  | _, [] => []
+  | fuel + 1, b :: rest =>
+    if b < 128 then b :: utf8DecodeF fuel rest
+    else if b < 224 then
+      match rest with
+      | c :: r => ((b - 192) * 64 + (c - 128)) :: utf8DecodeF fuel r
+      | [] => [65533]
+    else if b < 240 then
+      match rest with
+      | c :: d :: r => ((b - 224) * 4096 + (c - 128) * 64 + (d - 128)) :: utf8DecodeF fuel r
+      | _ => [65533]
+    else
+      match rest with
+      | c :: d :: e :: r =>
+        ((b - 240) * 262144 + (c - 128) * 4096 + (d - 128) * 64 + (e - 128)) :: utf8DecodeF fuel r
+      | _ => [65533]
+
+def utf8Decode (bs : List Nat) : List Nat := utf8DecodeF bs.length bs
+
+/-- UTF-16BE code units → code points (surrogate pairs combined; a lone surrogate stays) -/
+def utf16DecodeF : Nat → List Nat → List Nat
+  | 0, _ => []
+  | _, [] => []
+  | _, [_] => [65533]
+  | fuel + 1, a :: b :: rest =>
+    let u := a * 256 + b
+    if 55296 ≤ u ∧ u < 56320 then
+      match rest with
+      | c :: d :: r =>
+        let l := c * 256 + d
+        if 56320 ≤ l ∧ l < 57344 then
+          (65536 + (u - 55296) * 1024 + (l - 56320)) :: utf16DecodeF fuel r
+        else u :: utf16DecodeF fuel rest
+      | _ => u :: utf16DecodeF fuel rest
+    else u :: utf16DecodeF fuel rest
+
+/-- the characters a reader shows for a text string: after `FE FF` UTF-16BE, otherwise
+PDFDocEncoding — which agrees with ASCII on TAB, LF, CR and 0x20..0x7E; every other byte stands
+for *one* character of Annex D, rendered here as the placeholder `0xE000 + byte` -/
+def readTextString : List Nat → List Nat
+  | 254 :: 255 :: rest => utf16DecodeF rest.length rest
+  | bs => bs.map fun b => if b = 9 ∨ b = 10 ∨ b = 13 ∨ (32 ≤ b ∧ b ≤ 126) then b else 57344 + b
+
+/-- the written prefix shows the authored characters -/
+def prefixReadsBack (written authored : Option (List Nat)) : Bool :=
+  match written, authored with
+  | Option.none, Option.none => true
+  | some w, some a => readTextString w = utf8Decode a
+  | _, _ => false
+
 end Spec
 end OxiVerif.C27
